@@ -628,7 +628,11 @@ func (propC09) Gen(seed uint64, tier string) *Case {
 				if op.K == "render" && !placed {
 					for k := range frags {
 						if r.Chance(0.8) {
-							ops = append(ops, Op{K: "addfrag", I: k})
+							if r.Chance(0.3) {
+								ops = append(ops, Op{K: "addfrag_chain", I: k, S: fmt.Sprintf("only in file %d", i)})
+							} else {
+								ops = append(ops, Op{K: "addfrag", I: k})
+							}
 						}
 					}
 					placed = true
@@ -749,7 +753,7 @@ func (propC09) Check(c *Case) (*Violation, *RunInfo) {
 				got.hist = execBody(j.Recipe, env, sharedFrags)
 			}()
 			for _, op := range j.Recipe.Ops {
-				if op.K == "addfrag" {
+				if op.K == "addfrag" || op.K == "addfrag_chain" {
 					sharedRenders++
 					break
 				}
